@@ -15,11 +15,13 @@ class NotCovered(Exception):
     """grammar outside the fragment this reference covers"""
 
 class St:
-    __slots__ = ('i', 'flt', 'fresh')
-    def __init__(self, i, flt, fresh):
-        self.i, self.flt, self.fresh = i, flt, fresh
+    # sk: token indices skipped EAGERLY (at a parse start) since the last delivery - an advance-only lexer still stands in
+    # front of them, so a filter change that makes one of them deliverable exposes the recorded C05 finding
+    __slots__ = ('i', 'flt', 'fresh', 'sk')
+    def __init__(self, i, flt, fresh, sk=frozenset()):
+        self.i, self.flt, self.fresh, self.sk = i, flt, fresh, sk
     def copy(self):
-        return St(self.i, self.flt, self.fresh)
+        return St(self.i, self.flt, self.fresh, self.sk)
 
 class Peg:
     def __init__(self, toks, complete, sink=False, sub_skip=True):
@@ -31,6 +33,7 @@ class Peg:
         self.emitted = 0            # errors the reference expects in the sink so far
         self.stale = set()          # recover_after objects whose recovery token ended the stream (known finding)
         self.known = None
+        self.lost_met = False       # a filter change made an eagerly skipped token deliverable again (it stays lost)
         self.last_consumed = None
 
     def complete_tail_ok(self):
@@ -43,6 +46,7 @@ class Peg:
     def norm(self, s):
         if s.fresh:
             while s.i < len(self.toks) and not lexsim.keeps(s.flt, self.toks[s.i]['kind']):
+                s.sk = s.sk | {s.i}
                 s.i += 1
         return s
     def first(self, s):
@@ -56,6 +60,7 @@ class Peg:
             raise Fail('end')
         s.i = j + 1
         s.fresh = False
+        s.sk = frozenset()
         self.last_consumed = j
         return self.toks[j], j
     def rest(self, s):
@@ -67,6 +72,8 @@ class Peg:
             j += 1
         return out
     def set_filter(self, s, f):
+        if any(lexsim.keeps(f, self.toks[k]['kind']) for k in s.sk):
+            self.lost_met = True
         s.flt = f
         self.norm(s)
 
@@ -416,5 +423,6 @@ def reference(text, le, tab, scanner, flt, g, sink=False, runs=1, sub_skip=True)
         out.append(('ok', v, p.rest(s1), s1.flt is not None, p.emitted))
         s = s1
     reference.known = p.known
+    reference.lost_met = p.lost_met
     reference.list_bounds = getattr(p, 'list_bounds', [])
     return out
